@@ -20,6 +20,15 @@
      false = the code before fixes/C12-2 (public_byte: 65 bytes for an uncompressed key)
      true  = the repaired code (always the 33-byte compressed point, as BIP32 prescribes).
 
+   Sessions (several calls on ONE object): [lib_wif_with] / [lib_xkey_with] are the exporters with their explicit
+   arguments (prefix=, is_private=, child_index=, witness_type=, multisig=); [session] threads the object's VISIBLE fields
+   through a list of calls ([sop]: exports, network_change, public(), address(compressed=), raw forms, opaque calls) and
+   answers each call by the stateless exporter on the current fields.  The library's stored WIF text (_wif / _wif_prefix)
+   is deliberately NOT part of the model: after fixes/C12-3 (the stored text is dropped when the compressed attribute has
+   changed) it never shows.  Faithful oddities kept: as_hex(private=True) returns private_byte (bytes, not text);
+   HDKey.wif(child_index=c) stores c in the object; HDKey.wif(multisig=False) cannot override a multisig key;
+   address(compressed=b) overwrites the compressed attribute but public_byte / public_hex stay as __init__ made them.
+
    After the C04 repairs Key.__init__ refuses a private key whose number is not in 1 .. n-1 ([secret_in_range], n from
    Gen.GenConsts) and, being strict, a public key that is not a curve point.  The model has no curve: the shape part
    of that test (02/03 + 32 bytes, 04 + 64 bytes) is modelled, the numeric part (x < p, y < p, y^2 = x^3 + 7, resp.
@@ -544,6 +553,180 @@ Definition lib_xkey (k : keymeta) (want_private : bool) : res bytes :=
             Ok (b58check_enc sha256d raw)
       end
   end.
+
+(* ---------- the exporters with their explicit arguments ---------- *)
+(* Key.wif(prefix) / HDKey.wif_key(prefix): None = the version byte of the key's current network; Some p = the bytes
+   given (bytes, or hex text through bytes.fromhex), any length, the empty string included (prefix is tested with
+   "is None").  The stored text of an earlier call ([_wif], [_wif_prefix]) is not part of the model: the answer is a
+   function of the current fields and the argument only (obligation "session/no-hidden-state", see [session]). *)
+Definition lib_wif_with (k : keymeta) (prefix : option bytes) : res bytes :=
+  if negb (km_constructible k) then Err EKey
+  else if negb (km_private k) then Err EKey
+  else
+    let v := of_be (km_secret k) in
+    if v =? 0 then Err EKey
+    else if 2 ^ 256 <=? v then Err EOther
+    else match prefix with
+         | Some p => Ok (b58check_enc sha256d (p ++ be_bytes 32 v ++ (if km_compressed k then [x01] else [])))
+         | None =>
+             match find_network (km_network k) with
+             | None => Err ENetwork
+             | Some n =>
+                 Ok (b58check_enc sha256d (nw_prefix_wif n ++ be_bytes 32 v ++ (if km_compressed k then [x01] else [])))
+             end
+         end.
+
+(* the effective arguments of HDKey.wif(is_private, child_index, prefix, witness_type, multisig):
+   "if not witness_type" / "if not multisig" / "if not prefix" / "if child_index" — None, '' , False, b'' and 0 all
+   mean "take the object's own value" *)
+Definition xk_want (isp : option bool) : bool := match isp with Some true => true | _ => false end.
+Definition xk_witness (k : keymeta) (wt : option str) : str :=
+  let own := if String.eqb (km_witness k) "" then default_witness else km_witness k in
+  match wt with Some w => if String.eqb w "" then own else w | None => own end.
+Definition xk_multisig (k : keymeta) (ms : option bool) : bool :=
+  match ms with Some true => true | _ => km_multisig k end.
+Definition xk_child (k : keymeta) (child : option Z) : Z :=
+  match child with Some c => if c =? 0 then km_child k else c | None => km_child k end.
+
+(* the four version bytes: the explicit ones, else Network.wif_prefix.  An explicit prefix that is not four bytes or
+   starts with 00 is not modelled (the text is then padded to 111 characters by change_base) *)
+Definition xk_prefix (k : keymeta) (n : network) (isp : option bool) (prefix : option bytes) (wt : option str)
+  (ms : option bool) : res bytes :=
+  match prefix with
+  | Some (p0 :: pr) =>
+      if Nat.eqb (length pr) 3 && negb (beq p0 x00) then Ok (p0 :: pr) else Err EUnmodelled
+  | _ => lib_network_wif_prefix n (km_private k && xk_want isp) (xk_witness k wt) (xk_multisig k ms)
+  end.
+
+Definition lib_xkey_with (k : keymeta) (isp : option bool) (child : option Z) (prefix : option bytes)
+  (wt : option str) (ms : option bool) : res bytes :=
+  if negb (km_constructible k) then Err EKey else
+  match find_network (km_network k) with
+  | None => Err ENetwork
+  | Some n =>
+      let as_private := km_private k && xk_want isp in
+      match xk_prefix k n isp prefix wt ms with
+      | Err e => Err e
+      | Ok p =>
+          let c := xk_child k child in
+          if (km_depth k <? 0) || (256 <=? km_depth k) || (c <? 0) || (2 ^ 32 <=? c)
+          then Err EOther
+          else
+            let keydata :=
+              if as_private then x00 :: km_secret k
+              else if xk_want isp then km_pubc k
+              else (if pubser then km_pubc k else km_public_byte k) in
+            Ok (b58check_enc sha256d (xkey_raw p (km_depth k) (km_fp k) c (km_chain k) keydata))
+      end
+  end.
+
+(* ---------- sessions: several calls on ONE Key / HDKey object ---------- *)
+(* The object's visible fields are a [keymeta] (is_private, private_byte, the public point in both forms as computed by
+   __init__, chain, depth, fingerprint, child_index, network, witness_type, multisig; [km_compressed] is the flag
+   __init__ saw: it fixed public_byte / public_hex for good) plus the CURRENT attribute [compressed], which
+   Key.address(compressed=...) overwrites.  Nothing else is state: every answer is computed from these fields. *)
+Record sstate := { ss_km : keymeta; ss_compressed : bool }.
+
+Inductive sop :=
+  | SWif (prefix : option bytes)                     (* Key.wif(prefix) / HDKey.wif_key(prefix) *)
+  | SXkey (isp : option bool) (child : option Z) (prefix : option bytes) (wt : option str) (ms : option bool)
+                                                     (* HDKey.wif(...); wif_private = Some true, wif_public = Some false *)
+  | SNet (name : str)                                (* HDKey.network_change(name) *)
+  | SPublic                                          (* obj = obj.public() *)
+  | SAddr (compressed : option bool)                 (* address(compressed=...): only its effect on the fields *)
+  | SHex (private : bool)                            (* as_hex(private) *)
+  | SBytes (private : bool)                          (* as_bytes(private) *)
+  | SInt                                             (* int(obj) *)
+  | SOpaque.                                         (* encrypt(password) [BIP38: C15], as_dict(), repr(): composite or foreign
+                                                        outputs, judged by the harness oracle; no effect on the fields *)
+
+Inductive raw_val := RBytes (b : bytes) | RText (s : bytes) | RInt (z : Z) | RNone.
+
+Inductive sanswer :=
+  | AText (r : res bytes)       (* an exported string *)
+  | ARaw (v : raw_val)          (* a raw form *)
+  | ADone (r : res unit)        (* a call without an export: done / refused *)
+  | AComp (c : bool)            (* address(): the compressed attribute afterwards (the address text is C04 / C05) *)
+  | AUnmodelled.                (* encrypt() / as_dict() / repr(): only "the fields stay" is modelled *)
+
+Definition km_set_compressed (k : keymeta) (c : bool) : keymeta :=
+  {| km_private := km_private k; km_secret := km_secret k; km_pubc := km_pubc k; km_pubu := km_pubu k;
+     km_compressed := c; km_chain := km_chain k; km_depth := km_depth k; km_fp := km_fp k; km_child := km_child k;
+     km_network := km_network k; km_witness := km_witness k; km_multisig := km_multisig k |}.
+Definition km_set_network (k : keymeta) (nw : str) : keymeta :=
+  {| km_private := km_private k; km_secret := km_secret k; km_pubc := km_pubc k; km_pubu := km_pubu k;
+     km_compressed := km_compressed k; km_chain := km_chain k; km_depth := km_depth k; km_fp := km_fp k;
+     km_child := km_child k; km_network := nw; km_witness := km_witness k; km_multisig := km_multisig k |}.
+Definition km_set_child (k : keymeta) (c : Z) : keymeta :=
+  {| km_private := km_private k; km_secret := km_secret k; km_pubc := km_pubc k; km_pubu := km_pubu k;
+     km_compressed := km_compressed k; km_chain := km_chain k; km_depth := km_depth k; km_fp := km_fp k;
+     km_child := c; km_network := km_network k; km_witness := km_witness k; km_multisig := km_multisig k |}.
+Definition km_strip_private (k : keymeta) : keymeta :=
+  {| km_private := false; km_secret := []; km_pubc := km_pubc k; km_pubu := km_pubu k;
+     km_compressed := km_compressed k; km_chain := km_chain k; km_depth := km_depth k; km_fp := km_fp k;
+     km_child := km_child k; km_network := km_network k; km_witness := km_witness k; km_multisig := km_multisig k |}.
+
+(* the fields Key.wif reads: the CURRENT compressed attribute decides the 01 flag *)
+Definition ss_wif_view (s : sstate) : keymeta := km_set_compressed (ss_km s) (ss_compressed s).
+
+(* the stateless answer of one call on the current fields *)
+Definition sop_answer (s : sstate) (op : sop) : sanswer :=
+  let k := ss_km s in
+  match op with
+  | SWif p => AText (lib_wif_with (ss_wif_view s) p)
+  | SXkey isp child prefix wt ms => AText (lib_xkey_with k isp child prefix wt ms)
+  | SNet name => ADone (if network_defined name then Ok tt else Err ENetwork)
+  | SPublic => ADone (Ok tt)
+  | SAddr c => AComp (match c with Some b => b | None => ss_compressed s end)
+  | SHex private => ARaw (if private then (if km_private k then RBytes (km_secret k) else RNone)   (* sic: private_byte *)
+                          else RText (hex_encode (km_public_byte k)))
+  | SBytes private => ARaw (if private then (if km_private k then RBytes (km_secret k) else RNone)
+                            else RBytes (km_public_byte k))
+  | SInt => ARaw (if km_private k then RInt (of_be (km_secret k)) else RNone)
+  | SOpaque => AUnmodelled
+  end.
+
+(* what the call does to the fields: network_change sets the network (when it exists), public() drops the secret,
+   address(compressed=b) sets the compressed attribute, HDKey.wif(child_index=c) with c <> 0 sets child_index once
+   the version bytes are found (before the serialisation, which may still refuse) *)
+Definition sop_step (s : sstate) (op : sop) : sstate :=
+  let k := ss_km s in
+  match op with
+  | SNet name => if network_defined name then {| ss_km := km_set_network k name; ss_compressed := ss_compressed s |} else s
+  | SPublic => {| ss_km := km_strip_private k; ss_compressed := ss_compressed s |}
+  | SAddr (Some b) => {| ss_km := k; ss_compressed := b |}
+  | SXkey isp child prefix wt ms =>
+      if negb (km_constructible k) then s else
+      match find_network (km_network k) with
+      | None => s
+      | Some n => match xk_prefix k n isp prefix wt ms with
+                  | Ok _ => match child with
+                            | Some c => if c =? 0 then s else {| ss_km := km_set_child k c; ss_compressed := ss_compressed s |}
+                            | None => s
+                            end
+                  | Err _ => s
+                  end
+      end
+  | _ => s
+  end.
+
+(* a session: the answers of the calls in order, each on the fields as the earlier calls left them *)
+Fixpoint session (s : sstate) (ops : list sop) : list sanswer :=
+  match ops with
+  | [] => []
+  | op :: r => sop_answer s op :: session (sop_step s op) r
+  end.
+
+(* the fields in front of each call *)
+Fixpoint session_states (s : sstate) (ops : list sop) : list sstate :=
+  match ops with
+  | [] => []
+  | op :: r => s :: session_states (sop_step s op) r
+  end.
+
+Definition session_final (s : sstate) (ops : list sop) : sstate := fold_left sop_step ops s.
+
+Definition ss_init (k : keymeta) : sstate := {| ss_km := k; ss_compressed := km_compressed k |}.
 
 End Lib.
 
